@@ -378,4 +378,4 @@ def run(rep, tier):
         from ..engines import simd_rules as _sr
         rep.call(_sr.float_alpha_unsaturated, rep, prog, "C07.float-unsaturated")
         rep.call(row_coverage.divide_every_chunk, rep, prog, "C07.divide-every-chunk",
-                 {"x86": 6, "x86-rayon": 6, "wasm": 1}.get(cfg, 0))
+                 {"x86": 12, "x86-rayon": 12, "wasm": 2}.get(cfg, 0))
